@@ -281,7 +281,7 @@ func cmdCheck(args []string) {
 		}
 		cfg.Budget = 600 * time.Second
 		if *tier == "thorough" {
-			cfg.Budget = 1200 * time.Second
+			cfg.Budget = 900 * time.Second
 		}
 		if v, ok := params["_budget_s"]; ok {
 			cfg.Budget = time.Duration(v) * time.Second
